@@ -55,7 +55,7 @@ fn doc(k: Key, ts: HLCTimestamp) -> Document {
 
 /// on_set: applied to both or to neither; agreement kept at the key and at a bystander.
 #[kani::proof]
-#[kani::unwind(7)]
+#[kani::unwind(4)]
 fn ac_on_set() {
     let mut a = any_actor();
     let k: Key = kani::any();
@@ -88,7 +88,7 @@ fn ac_on_set() {
 
 /// on_del: same contract for deletes.
 #[kani::proof]
-#[kani::unwind(7)]
+#[kani::unwind(4)]
 fn ac_on_del() {
     let mut a = any_actor();
     let k: Key = kani::any();
@@ -120,7 +120,7 @@ fn ac_on_del() {
 /// agreement at both ids and a bystander; exactly the documents storage reports as written
 /// become visible in the set.
 #[kani::proof]
-#[kani::unwind(12)]
+#[kani::unwind(4)]
 fn ac_on_multi_set() {
     let mut a = any_actor();
     let ks: [Key; 2] = [kani::any(), kani::any()];
@@ -165,7 +165,7 @@ fn ac_on_multi_set() {
 
 /// on_multi_del, same contract.
 #[kani::proof]
-#[kani::unwind(12)]
+#[kani::unwind(4)]
 fn ac_on_multi_del() {
     let mut a = any_actor();
     let ks: [Key; 2] = [kani::any(), kani::any()];
@@ -210,7 +210,7 @@ fn ac_on_multi_del() {
 /// on_purge_tombstones with <= 2 tombstones: a tombstone leaves the set iff it left storage
 /// (failed removals are re-added); live entries untouched.
 #[kani::proof]
-#[kani::unwind(12)]
+#[kani::unwind(4)]
 fn ac_on_purge() {
     let mut a = any_actor();
     a.state.dead = vcoll::HashMap::new();
